@@ -25,6 +25,7 @@ type Entry struct {
 	Name string
 	New  func() Container
 	Cfg  *gen.Cfg
+	Orig *gen.Cfg // set on the derived entry the models judge (placeholders replaced by their overrides): the configuration as generated
 }
 
 var registry = map[string]*Entry{}
